@@ -18,7 +18,7 @@ LEVEL = "fault_enumeration"
 DESIGN_REF = "DESIGN.md section 3, C13"
 TECHNIQUE = "exhaustive command x parameter x raw-kind confusion matrices (MPilot and EEMS 2.0 syntax), Hypothesis-generated token/character corruptions and hostile CSV contents, and coverage-guided fuzzing of command-file text with atheris/libFuzzer; allowed-exception oracle at the from_source()/run() boundary and CLI exit-status/stderr oracle through click's CliRunner"
 LEVEL_TEXT = (
-    "(a) For every built-in command (both I/O libraries) and every parameter, the argument is replaced by each of 13 raw "
+    "(a) For every built-in command (both I/O libraries) and every parameter, the argument is replaced by each of 16 raw "
     "kinds (integer, decimal, word, quoted text, boolean word, empty list, number list, word list, nested list, tuple, "
     "existing result name, missing name, path-like text) in an otherwise valid model. (b) Valid models and arbitrary "
     "renderings are corrupted by token deletions/duplications, bracket and quote damage and single-character "
@@ -41,6 +41,7 @@ RAW_KINDS = {
     "int": "7", "decimal": "2.5", "word": "abc", "quoted": '"some text"', "boolean_word": "true", "empty_list": "[]",
     "number_list": "[1, 2.5]", "word_list": "[abc, def]", "nested_list": "[[1, 2], [3]]", "tuple": '[k: v, "k2": "v2"]',
     "existing_result": "Src", "missing_name": "Nowhere", "path_like": "C:\\data\\x.csv",
+    "nul_text": '"in\x00put.csv"', "lone_surrogate": '"in\\ud800put.csv"', "control_text": '"a\x0cb\x85c\u2028d"',
 }
 
 
